@@ -252,7 +252,47 @@ def active_findings(pid):
     return [e for e in load_known_findings(pid) if e.get("kind") == "finding"]
 
 
+def _normalize_coverage(cov, level):
+    """Keep evidence files valid for /root/.vp/EVIDENCE.schema.json whatever a family passes in."""
+    cov = dict(cov)
+    dn = cov.get("distinct_nontrivial")
+    if isinstance(dn, dict):
+        # a family reported {"distinct": D, "nontrivial": N, "rule": ...}: keep the detail, count conservatively
+        cov["distinct_nontrivial_detail"] = dn
+        nums = [v for k, v in dn.items() if isinstance(v, int) and not isinstance(v, bool)]
+        cov["distinct_nontrivial"] = min(nums) if nums else 0
+        if "rule" in dn and "rule" not in cov:
+            cov["rule"] = str(dn["rule"])
+    for k in ("evaluations", "distinct_nontrivial", "states", "transitions", "traces_validated_against_impl"):
+        if k in cov and not isinstance(cov[k], int):
+            try:
+                cov[k] = int(cov[k])
+            except (TypeError, ValueError):
+                raise InfraError("evidence key %s must be an integer, got %r" % (k, cov[k]))
+    if "exhaustive" in cov and not isinstance(cov["exhaustive"], bool):
+        # a description of the exhaustively enumerated part; the run as a whole also samples, so: not exhaustive
+        cov["exhaustive_part"] = cov["exhaustive"]
+        cov["exhaustive"] = False
+    for k in ("obligations", "discharged", "programs", "disagreements_checked"):
+        if k in cov and not isinstance(cov[k], int):
+            cov[k + "_detail"] = cov.pop(k)
+    if "samples" in cov and not isinstance(cov["samples"], list):
+        cov["samples"] = [cov["samples"]]
+    if "rule" in cov and not isinstance(cov["rule"], str):
+        cov["rule"] = json.dumps(cov["rule"])
+    if level == "model_checking":
+        missing = [k for k in ("states", "transitions", "traces_validated_against_impl", "samples") if k not in cov]
+        if missing:
+            raise InfraError("evidence for model_checking lacks %s" % missing)
+        if cov["states"] < 1 or cov["transitions"] < 1 or not cov["samples"]:
+            raise InfraError("evidence for model_checking needs states>=1, transitions>=1 and a non-empty samples list")
+    return cov
+
+
 def write_evidence(pid, tier, seed, coverage, wall_s, violations=0, level="model_checking", assumptions=None):
+    if os.environ.get("VERIF_NO_EVIDENCE"):
+        return
+    coverage = _normalize_coverage(coverage, level)
     os.makedirs(EVIDENCE_DIR, exist_ok=True)
     ev = {
         "property_id": pid,
